@@ -31,6 +31,7 @@ type isoCfg struct {
 	Touch      bool // every routed handler first looks at BaseURL/Scheme/Host/… and negotiates Accept*
 	Trust      int  // 0 TrustProxy off (forwarding headers honoured); 1 on, peer trusted; 2 on, peer not trusted
 	ProxyHdr   bool // ProxyHeader = X-Forwarded-For
+	Mount      bool // a sub-app with an ErrorHandler of its own is mounted under /admin
 }
 
 // widen draws the configuration dimensions added after the first round.
@@ -43,11 +44,12 @@ func (c *isoCfg) widen(r interface {
 	c.Touch = r.Chance(1, 2)
 	c.Trust = r.Intn(3)
 	c.ProxyHdr = r.Chance(1, 3)
+	c.Mount = r.Chance(1, 2)
 }
 
 func (c isoCfg) String() string {
-	return fmt.Sprintf("custom=%v passlocals=%v immutable=%v cs=%v strict=%v nomw=%v ehstate=%v touch=%v trust=%d proxyhdr=%v",
-		c.Custom, c.PassLocals, c.Immutable, c.CaseSens, c.Strict, c.NoMW, c.EHState, c.Touch, c.Trust, c.ProxyHdr)
+	return fmt.Sprintf("custom=%v passlocals=%v immutable=%v cs=%v strict=%v nomw=%v ehstate=%v touch=%v trust=%d proxyhdr=%v mount=%v",
+		c.Custom, c.PassLocals, c.Immutable, c.CaseSens, c.Strict, c.NoMW, c.EHState, c.Touch, c.Trust, c.ProxyHdr, c.Mount)
 }
 
 type customCtx struct {
@@ -78,8 +80,48 @@ type isoSink struct {
 	probes   int
 	vec      map[string]string // component -> canonical JSON
 	reused   bool
+	ehVec    map[string]string // what the ErrorHandler invoked last observed
+	ehCount  int
+	ehReused bool
 	lastBind string // what the Views engine received last
 	renders  int
+}
+
+// ehObserve is what every ErrorHandler of the app does first: it writes down what it can see of
+// the failed request. For probes that are answered through an ErrorHandler (404/405, requests
+// fasthttp rejects) this is the observation vector.
+func (s *isoSink) ehObserve(c fiber.Ctx, err error, which string) {
+	s.ehCount++
+	s.ehReused = s.seenBefore(c)
+	v := map[string]string{}
+	v["error-handler"] = canon(which)
+	code := 0
+	var fe *fiber.Error
+	if errors.As(err, &fe) {
+		code = fe.Code
+	}
+	v["error"] = canon(map[string]any{"code": code, "text": err.Error()})
+	rt := c.Route()
+	v["route-path"] = canon(map[string]any{"path": rt.Path, "method": rt.Method, "name": rt.Name, "params": rt.Params})
+	pm := map[string]string{}
+	for _, p := range allParamNames {
+		pm[p] = c.Params(p, "<default>")
+	}
+	v["params"] = canon(pm)
+	lm := map[string]any{}
+	for _, k := range localStrKeys {
+		lm[k] = normalise(c.Locals(k))
+	}
+	lm["struct-key"] = normalise(c.Locals(localKey{1}))
+	v["locals"] = canon(lm)
+	v["base-url"] = canon(c.BaseURL())
+	v["method"] = canon(c.Method())
+	v["request-line"] = canon(map[string]any{"path": c.Path(), "url": c.OriginalURL(), "host": c.Host(),
+		"ip": c.IP(), "scheme": c.Scheme(), "proto": c.Protocol()})
+	v["flash-messages"] = canon(c.Redirect().Messages())
+	v["old-inputs"] = canon(c.Redirect().OldInputs())
+	v["resp-at-entry"] = canon(map[string]any{"status": c.Response().StatusCode(), "headers": c.GetRespHeaders()})
+	s.ehVec = v
 }
 
 type ptrEntry struct {
@@ -186,6 +228,22 @@ type bindStrict struct {
 	B int  `query:"b" form:"b" json:"b"`
 	C bool `query:"c" form:"c" json:"c"`
 }
+
+// predeclared framework errors a handler may return as they are
+var predeclared = map[string]error{
+	"bad-request":        fiber.ErrBadRequest,
+	"not-found":          fiber.ErrNotFound,
+	"too-large":          fiber.ErrRequestEntityTooLarge,
+	"timeout":            fiber.ErrRequestTimeout,
+	"header-too-large":   fiber.ErrRequestHeaderFieldsTooLarge,
+	"method-not-allowed": fiber.ErrMethodNotAllowed,
+	"bad-gateway":        fiber.ErrBadGateway,
+	"unprocessable":      fiber.ErrUnprocessableEntity,
+	"teapot":             fiber.ErrTeapot,
+}
+
+var predeclaredNames = []string{"bad-request", "bad-request", "bad-request", "not-found", "too-large", "timeout",
+	"header-too-large", "method-not-allowed", "bad-gateway", "unprocessable", "teapot"}
 
 // xsrc is ONE struct type whose fields go by a different name in every source tag. The history
 // binds it from one source, the probe from another: what the probe gets must not depend on it.
@@ -309,7 +367,9 @@ func isoBuild(cfg isoCfg) (*fiber.App, *isoSink) {
 		Immutable:         cfg.Immutable,
 		CaseSensitive:     cfg.CaseSens,
 		StrictRouting:     cfg.Strict,
+		BodyLimit:         3000,
 		ErrorHandler: func(c fiber.Ctx, err error) error {
+			s.ehObserve(c, err, "root")
 			s.note(c)
 			if cfg.EHState {
 				// an error page that is rendered with bindings, remembers the failure as a flash
@@ -348,6 +408,28 @@ func isoBuild(cfg isoCfg) (*fiber.App, *isoSink) {
 			s.note(c)
 			return c.Next()
 		})
+	}
+	if cfg.Mount {
+		sub := fiber.New(fiber.Config{ErrorHandler: func(c fiber.Ctx, err error) error {
+			s.ehObserve(c, err, "sub:/admin")
+			s.note(c)
+			code := fiber.StatusInternalServerError
+			var fe *fiber.Error
+			if errors.As(err, &fe) {
+				code = fe.Code
+			}
+			return c.Status(code).SendString("admin area: " + err.Error())
+		}})
+		sub.Get("/reports/:id", func(c fiber.Ctx) error {
+			s.note(c)
+			c.Locals("user", "admin-"+c.Params("id"))
+			return c.SendString("report " + c.Params("id") + " at " + c.BaseURL())
+		})
+		sub.Get("/fail/:id", func(c fiber.Ctx) error {
+			s.note(c)
+			return fiber.NewError(418, "admin failure "+c.Params("id"))
+		})
+		app.Use("/admin", sub)
 	}
 	// w wraps every route handler: pointer logging (also when there is no middleware) and, if
 	// configured, the usual look at the request's origin and Accept headers
@@ -695,6 +777,10 @@ func isoBuild(cfg isoCfg) (*fiber.App, *isoSink) {
 			sb.WriteByte('\n')
 		}
 		c.Set(fiber.HeaderContentType, "text/plain")
+		if e, ok := predeclared[c.Query("ret")]; ok {
+			// the idiomatic refusal: one of the framework's predeclared errors
+			return e
+		}
 		return c.SendString(sb.String())
 	}
 	for _, p := range probeRoutes {
